@@ -131,9 +131,16 @@ def check(chk: Check) -> None:
                 plain_ = all(isinstance(freeze(c_), tuple) and freeze(c_)[:2] == ('cmp', 'is') and freeze(c_)[3] == ('const', None) and v_
                              for c_, v_, _ in p.assumptions if any(om.mentions(freeze(c_), ('param', pn_)) for pn_ in params_[1:]))
                 guard_ = '' if plain_ or not conds_ else ' [reached when %s]' % ' and '.join(conds_)[:120]
-                rets['exact Decimal of ' + N.source_kind(arg) + guard_] = (
+                fa_ = freeze(arg)
+                as_text_ = isinstance(fa_, tuple) and (fa_[:1] == ('fstr',) or (fa_[:1] == ('call',) and fa_[2] in (
+                    ('ref', 'builtin', 'str'), ('ref', 'builtin', 'repr'), ('ref', 'builtin', 'format'))))
+                # handed over as a number instead of as text: no int-to-str digit limit on the way, and a float arrives with its
+                # whole binary expansion (50+ digits) instead of its shortest spelling - another finding than the one through str()
+                route_ = '' if as_text_ else ' handed to the constructor as a number'
+                rets['exact Decimal of ' + N.source_kind(arg) + route_ + guard_] = (
                     False, 'returns Decimal(%s): the constructor is exact, so the digits of unbounded number escape un-rounded '
-                           '(e.g. a 1-digit Decimal with exponent 99999 becomes a 100000-digit number)' % src)
+                           '(e.g. a 1-digit Decimal with exponent 99999 becomes a 100000-digit number)%s' % (
+                               src, '' if as_text_ else '; a float argument arrives with its full binary expansion'))
             else:
                 rets.setdefault(show(arg), (True, 'returns Decimal(%s)' % show(arg)))
         if not numeric_entry:
